@@ -62,6 +62,11 @@ def check_lines(rec, md: dict, lines: list, via_chart: bool, rng=None) -> bool:
                 return False
     except Exception as e:  # noqa
         rec.ev()
+        if md.get("resolution") == 0 and isinstance(e, ValueError):
+            # a resolution of 0 may be decoded as 0 or refused on the spot as untrustworthy (ValueError, cf. C15);
+            # what it may not be is reported as a MISSING field
+            rec.cls("resolution_zero_refused_with_ValueError")
+            return True
         rec.violation("well-formed-section-rejected", f"[Song] section {lines[:6]}... rejected with {harness.exc_str(e)}", case,
                       f"rejected:{type(e).__name__}")
         return False
@@ -249,6 +254,8 @@ def concurrent_stage(rec, kept):
     for md, lines, got in results:
         rec.ev()
         exp = model.expected_metadata(md)
+        if isinstance(got, ValueError) and md.get("resolution") == 0:
+            continue  # refused as untrustworthy (see check_lines)
         if isinstance(got, Exception) or any(got.get(f) != exp[f] for f in model.ALL_FIELDS):
             what = harness.exc_str(got) if isinstance(got, Exception) else str([(f, exp[f], got.get(f)) for f in model.ALL_FIELDS if got.get(f) != exp[f]][:3])
             rec.violation("field", f"decoded concurrently with 3 other threads, section {lines[:5]}... gave {what}",
